@@ -113,13 +113,15 @@ def gen_cases(ck):
         add(t, "shape_" + k)
     # lists with 255, 256, 257, 511, 512, 513 entries in every list kind (counters of 8 bits), and a
     # mixed illegal list at those sizes; evaluated by the Coq model like every other case
+    counted = []
     for lk in g.ENTRY_KINDS:
-        for n in (255, 256, 257, 511, 512, 513):
+        for n in (255, 256, 257) + ((511, 512, 513) if lk in ("type_obj", "type_enum") else ()):
             text, cls, exp = g.expand_recipe({"kind": "entries", "list": lk, "n": n})
-            add(text, "count_" + lk, g.from_wire(json.loads(exp)))
+            counted.append((text, "count_" + lk, g.from_wire(json.loads(exp))))
     for lk in ("type_obj", "type_enum"):
-        for n in (255, 256, 511, 512):
-            add(g.expand_recipe({"kind": "entries", "list": lk, "n": n, "mixed": True})[0], "count_mixed")
+        for n in (255, 256, 512):
+            counted.append((g.expand_recipe({"kind": "entries", "list": lk, "n": n, "mixed": True})[0],
+                            "count_mixed", None))
     # truncation at every byte
     trunc_src = [t.encode() for t in FIXED_TEXTS]
     short = sorted((t for _, t in laid if 20 < len(t) < (160 if quick else 400)), key=len)
@@ -132,6 +134,14 @@ def gen_cases(ck):
     # (c) byte soup
     for i in range(400 if quick else 8000):
         add(g.soup(rng), "soup")
+    # the long lists cost the model seconds each: spread them over the evaluation shards
+    stride = max(1, len(cases) // (len(counted) + 1))
+    for j, (text, tag, expect) in enumerate(counted):
+        cases.insert(min(len(cases), (j + 1) * stride), {
+            "id": -1, "op": "parse", "text": text.hex(), "tag": tag,
+            "expect": g.to_wire(expect) if expect is not None else None})
+    for i, c in enumerate(cases):
+        c["id"] = i
     return cases
 
 
@@ -274,6 +284,34 @@ def history_check(ck, items):
 KNOWN_DEEP = "C13.deep_nesting_stack_overflow"
 
 
+def unoptimised_idl():
+    """The idl harness with zlink-core compiled at opt-level 0 (own target directory under work/)."""
+    root = harness_root()
+    tdir = os.path.join(WORK, "idl-o0-" + os.path.basename(root.rstrip("/")))
+    cmd = ("cargo build --offline --bin idl --target-dir %s "
+           "--config 'profile.dev.package.zlink-core.opt-level=0'" % tdir)
+    rc, out = sh(cmd, timeout=1500, cwd=root)
+    exe = os.path.join(tdir, "debug", "idl")
+    return (exe if rc == 0 and os.path.exists(exe) else None), out
+
+
+def run_exe(exe, cases, workers=16):
+    """One process per case."""
+    from concurrent.futures import ThreadPoolExecutor
+
+    def one(c):
+        rc, out = sh(exe, timeout=600, input=json.dumps(c, separators=(",", ":")) + "\n")
+        for line in out.splitlines():
+            if line.startswith("{"):
+                try:
+                    return json.loads(line)
+                except ValueError:
+                    pass
+        return {"id": c["id"], "crash": True, "log": out[-400:]}
+    with ThreadPoolExecutor(max_workers=workers) as ex:
+        return list(ex.map(one, cases))
+
+
 def big_check(ck):
     """Large inputs, each in its own process: long runs of comment / blank lines in every layout and
     attached-comment position, lists of 2^16 +- 1 entries, 100 000 members, types nested 500 and
@@ -291,6 +329,19 @@ def big_check(ck):
                       "tag": "big_" + rc["kind"]})
         expects.append((cls, g.expected_summary(exp), len(text)))
     results = ck.harness_run("idl", cases, shards=len(cases))
+    # the repeated layout productions (`ws`, comment and blank runs) once more on a build of zlink-core
+    # WITHOUT optimisation (no tail-call elimination) and on a 1 MiB thread stack: a loop rewritten as
+    # recursion must not survive because the optimiser happens to turn it back into a loop
+    exe0, log0 = unoptimised_idl()
+    runs = [i for i, c in enumerate(cases) if c["recipe"]["kind"] == "run"]
+    if exe0 is None:
+        ck.violation("the unoptimised build of the idl harness failed", {"log": log0[-2000:]}, tag="o0build",
+                     no_input=True)
+    else:
+        again = run_exe(exe0, [dict(cases[i], stack_kb=1024) for i in runs])
+        for i, r in zip(runs, again):
+            if r.get("crash") or r != results[i]:
+                results[i] = dict(r, unoptimised=True) if not r.get("crash") else r
     n_ok, n_known = 0, 0
     for c, r, (cls, es, size) in zip(cases, results, expects):
         rc = c["recipe"]
@@ -338,6 +389,8 @@ def big_check(ck):
                         "(vm_compute on megabyte texts with unary lengths is too slow); lists of 255..513 "
                         "entries go through the Coq model like every other case (class count_*)",
         "deep_nesting_probes": len(probes), "deep_nesting_probes_crashing": n_known,
+        "unoptimised_rerun": "the %d comment/blank-run cases are parsed a second time by a build of zlink-core at "
+                             "opt-level 0 on a 1 MiB thread stack" % len(runs),
     }
 
 
@@ -383,6 +436,13 @@ def main():
             text, cls, exp = g.expand_recipe(c["recipe"])
             es = g.expected_summary(exp)
             r = ck.harness_run("idl", [dict(c, text=text.hex(), summary=True)], shards=1)[0]
+            if c["recipe"]["kind"] == "run" and not r.get("crash"):
+                # also on the unoptimised build with a 1 MiB thread stack (see big_check)
+                exe0, log0 = unoptimised_idl()
+                if exe0:
+                    r2 = run_exe(exe0, [dict(c, text=text.hex(), summary=True, stack_kb=1024)])[0]
+                    if r2.get("crash") or strip_id(r2) != strip_id(r):
+                        r = r2
             ck.ran_correspondence = True
             slim = {k: v for k, v in c.items() if k != "text"}
             if r.get("crash") or r.get("class") not in CLASS:
